@@ -335,7 +335,8 @@ pub fn run(ctx: &mut Ctx) {
         rng.shuffle(&mut idx);
         idx.truncate(k);
         let iter_limit = [0usize, 1, 2, 5, 30][rng.below(5)];
-        let node_limit = [0usize, 5, 20, 10000, 10000][rng.below(5)];
+        let cap = ctx.param("node_cap", 1500);
+        let node_limit = [0usize, 5, 20, cap, cap][rng.below(5)];
         let fail_at = if rng.chance(1, 4) { Some(rng.below(3)) } else { None };
         let eqsat = rng.chance(1, 3);
         if rng.chance(1, 3) {
